@@ -515,4 +515,13 @@ def arguments_untouched(repo: Repo) -> RuleRun:
 
 arguments_untouched.rule_id = "C07.ARGUMENTS-UNTOUCHED"
 
-RULES = [kind_registry, dedup, direction, reversal, face_edge_slots, curve_direction, edge_slots, length_direction, arc_side, validity_tolerance, own_edge_data, no_memo, reflex_midpoint, arguments_untouched]
+def beam_list(repo: Repo) -> RuleRun:
+    """'every ... curved edge is written once': also when one edge-data object sits on several edges. Same rule as C10.BEAM-LIST."""
+    from . import c10
+
+    return c10.beam_list(repo, PROP, "C07.BEAM-LIST")
+
+
+beam_list.rule_id = "C07.BEAM-LIST"
+
+RULES = [kind_registry, dedup, direction, reversal, face_edge_slots, curve_direction, edge_slots, length_direction, arc_side, validity_tolerance, own_edge_data, no_memo, reflex_midpoint, arguments_untouched, beam_list]
